@@ -401,36 +401,8 @@ func (e *kvElection) attemptAcquire() error {
 	)
 
 	e.recordAcquireAttempt("success")
-	e.endSupersededTerm()
 	e.becomeLeader(token, rev)
 	return nil
-}
-
-// endSupersededTerm is called when an acquisition has just written a new record
-// for this instance. If the instance still leads an earlier term at that point
-// (another acquisition round of this instance won first), that term's record
-// has been removed or replaced in the meantime, otherwise the write could not
-// have succeeded: the earlier term is over. It is ended like any other term
-// (demotion, OnDemote) before the new one starts, so that OnPromote is never
-// invoked twice in a row and the new term gets its own loops and context.
-func (e *kvElection) endSupersededTerm() {
-	if !e.IsLeader() || !e.becomeFollower() {
-		return
-	}
-
-	e.mu.RLock()
-	onDemote := e.onDemote
-	e.mu.RUnlock()
-
-	if onDemote != nil {
-		log := e.getLogger()
-		log.Info("leader_demoted",
-			append(e.logWithContext(e.ctx),
-				zap.String("reason", "superseded_by_new_acquisition"),
-			)...,
-		)
-		onDemote()
-	}
 }
 
 // isStopped reports whether the election is not running (never started, or
@@ -453,9 +425,17 @@ func (e *kvElection) becomeLeader(token string, rev uint64) {
 	}
 
 	// Two acquisition rounds of this instance can both have written a record (the
-	// first one's was removed in between) and both have passed endSupersededTerm
-	// before either got here. The earlier term is then ended in the same critical
-	// section that starts the new one; its OnDemote runs before the new OnPromote.
+	// first one's was removed or replaced in between), so this function can be
+	// entered by an instance that already leads. The earlier term is then ended in
+	// the same critical section that starts the new one (no test-then-act outside
+	// the mutex); its OnDemote runs before the new OnPromote.
+	// The two winners can get here in either order. A win that is older than the
+	// record the instance already leads with has itself been superseded (its
+	// record was removed before the newer one could be created): it starts nothing.
+	if e.isLeader.Load() && rev < e.revision.Load() {
+		return
+	}
+
 	var earlierDemote func()
 	if e.isLeader.Load() {
 		earlierDemote = e.giveUpClaimLocked(e.ctx, "superseded_by_new_acquisition")
@@ -608,7 +588,6 @@ func (e *kvElection) attemptPriorityTakeover(payloadBytes []byte) error {
 		return fmt.Errorf("failed to unmarshal payload after takeover: %w", err)
 	}
 
-	e.endSupersededTerm()
 	e.revision.Store(newRev)
 	e.token.Store(newPayloadStruct.Token)
 	e.becomeLeader(newPayloadStruct.Token, newRev)
